@@ -20,6 +20,8 @@ pub struct HopSpec {
     pub same_host_policy: bool,
     /// the last Location belongs to the must-be-error class
     pub must_err: bool,
+    /// the caller turns the flow that makes this hop's request into a body-sending one (send_body_despite_method)
+    pub despite: bool,
 }
 
 #[derive(Clone, Debug)]
@@ -36,6 +38,7 @@ pub fn chain_json(c: &Chain) -> Value {
             "locations": h.locations.iter().map(|l| String::from_utf8_lossy(l).to_string()).collect::<Vec<_>>(),
             "same_host_policy": h.same_host_policy,
             "must_err": h.must_err,
+            "despite_method": h.despite,
         })).collect::<Vec<_>>(),
     })
 }
@@ -52,8 +55,11 @@ pub fn redirect_head(status: u16, locations: &[Vec<u8>]) -> Vec<u8> {
 }
 
 /// One hop on the real flow: returns the emitted head of `f`, and the result of following the redirect.
-pub fn do_hop(f: Flow<(), Prepare>, h: &HopSpec) -> Result<(Vec<u8>, Result<Option<Flow<(), Prepare>>, ureq_proto::Error>), String> {
+pub fn do_hop(mut f: Flow<(), Prepare>, h: &HopSpec) -> Result<(Vec<u8>, Result<Option<Flow<(), Prepare>>, ureq_proto::Error>), String> {
     let head = redirect_head(h.status, &h.locations);
+    if h.despite {
+        f.send_body_despite_method();
+    }
     let (req_head, _, term) = exchange(f, 0, &head, b"")?;
     let mut red = match term {
         Terminal::Redirect(r) => r,
@@ -325,7 +331,7 @@ fn exec_random(t: &mut Tape, st: &mut Stats) -> Result<(), String> {
                 }
             }
         }
-        hops.push(HopSpec { status, locations, same_host_policy: t.bool(), must_err });
+        hops.push(HopSpec { status, locations, same_host_policy: t.bool(), must_err, despite: t.chance(12) });
     }
     st.case_digest = t.digest();
     let c = Chain { start, hops };
@@ -348,12 +354,12 @@ fn exec_table(t: &mut Tape, st: &mut Stats) -> Result<(), String> {
     st.case_digest = t.digest();
     let mut hops = vec![];
     let start = if as_second_hop {
-        hops.push(HopSpec { status: 302, locations: vec![base.as_bytes().to_vec()], same_host_policy: false, must_err: false });
+        hops.push(HopSpec { status: 302, locations: vec![base.as_bytes().to_vec()], same_host_policy: false, must_err: false, despite: false });
         "http://start.test/s/t?u".to_string()
     } else {
         base.to_string()
     };
-    hops.push(HopSpec { status: 307, locations: vec![r.as_bytes().to_vec()], same_host_policy: true, must_err: false });
+    hops.push(HopSpec { status: 307, locations: vec![r.as_bytes().to_vec()], same_host_policy: true, must_err: false, despite: false });
     let c = Chain { start, hops };
     st.describe(|| chain_json(&c));
     st.class("rfc_5_4_table");
@@ -368,7 +374,7 @@ fn exec_errors(t: &mut Tape, st: &mut Stats) -> Result<(), String> {
     st.case_digest = t.digest();
     let mut hops = vec![];
     if second {
-        hops.push(HopSpec { status: 301, locations: vec![b"/first/hop".to_vec()], same_host_policy: false, must_err: false });
+        hops.push(HopSpec { status: 301, locations: vec![b"/first/hop".to_vec()], same_host_policy: false, must_err: false, despite: false });
     }
     let mut locations = vec![];
     if e < ERROR_LOCATIONS.len() {
@@ -377,7 +383,7 @@ fn exec_errors(t: &mut Tape, st: &mut Stats) -> Result<(), String> {
         }
         locations.push(ERROR_LOCATIONS[e].to_vec());
     }
-    hops.push(HopSpec { status: 302, locations, same_host_policy: false, must_err: true });
+    hops.push(HopSpec { status: 302, locations, same_host_policy: false, must_err: true, despite: false });
     let c = Chain { start: "http://a.test/x/y".into(), hops };
     st.describe(|| chain_json(&c));
     run_chain(&c, st)
@@ -389,7 +395,8 @@ pub static DEF: PropDef = PropDef {
 absolute http/https/HTTP with and without default / non-default ports and mixed-case hosts, scheme-relative, path-absolute, \
 path-relative with '.', '..' and empty segments in every position, query-only, empty, the absolute spelling of the URI just requested (8 %), optional fragments; 1..5 Location fields per \
 response (earlier ones possibly garbage, the last one counts); 6 % of hops carry a must-be-error Location (missing, obs-text / non-UTF-8, \
-unclosed '[', port > 65535 or non-numeric, empty authority). Oracle: Flow<Prepare>::uri() of the followed flow equals the RFC 3986 5.2 \
+unclosed '[', port > 65535 or non-numeric, empty authority). 12 % of the flows are turned into body-sending ones (send_body_despite_method) before their request is made. \
+Oracle: Flow<Prepare>::uri() of the followed flow equals the RFC 3986 5.2 \
 reference resolution (model/rfc3986.rs, validated on the RFC 5.4 tables) of the last Location against the URI of the request just made, \
 compared component-wise after the http normalisations (case, default port, empty path, dot segments), without fragment; the request \
 head written by every flow of the chain carries that URI's path-and-query and host; error class => Err (never Ok, never a panic). \
